@@ -86,10 +86,10 @@ func LegalReq(t *rapid.T, fc uint8, addrFits bool) spec.Req {
 	}
 	switch fc {
 	case 1, 2:
-		r.Qty = uint16(inRange(t, "qty", 1, 2000, 7, 8, 9, 125, 126, 1999))
+		r.Qty = uint16(inRange(t, "qty", 1, 2000, 7, 8, 9, 125, 126, 1999, 433, 440, 441, 465, 472, 473, 945, 984, 985)) // (also: replies of 63..65 and 127..129 bytes)
 		r.Addr = addr("addr", int(r.Qty))
 	case 3, 4:
-		r.Qty = uint16(inRange(t, "qty", 1, 125, 2, 124))
+		r.Qty = uint16(inRange(t, "qty", 1, 125, 2, 124, 27, 28, 29, 30, 59, 60, 61, 62))
 		r.Addr = addr("addr", int(r.Qty))
 	case 5:
 		r.Addr = addr("addr", 1)
@@ -119,7 +119,7 @@ func LegalReq(t *rapid.T, fc uint8, addrFits bool) spec.Req {
 		r.Payload, r.ByteCount = Payload(t, "regs", 2*int(r.Qty)), uint8(2*int(r.Qty))
 	case 17:
 	case 23:
-		r.Qty = uint16(inRange(t, "qty", 1, 125, 2, 124))
+		r.Qty = uint16(inRange(t, "qty", 1, 125, 2, 124, 27, 28, 29, 30, 59, 60, 61, 62))
 		r.Addr = addr("addr", int(r.Qty))
 		r.WQty = uint16(inRange(t, "wqty", 1, 121, 2, 120))
 		r.WAddr = addr("waddr", int(r.WQty))
